@@ -8,7 +8,7 @@ UNIT = "u6_jit"
 MOD = "exec::basejit::codegen::verif_u6::"
 KANI_FLAGS = []
 TRUSTED = [
-    "x86-64 subset semantics written in the harness (decoder + step function for exactly the encodings asm.rs emits: REX, 0x66, ModRM/SIB/disp8/disp32, mov/movzx/add/sub/imul/lea/inc/dec/cmp/test/sar/jcc/jmp; flags ZF and CF only) -- a specification, not checked against a CPU in this sandbox run",
+    "x86-64 subset semantics written in the harness (decoder + step function for exactly the encodings asm.rs emits: REX, 0x66, ModRM/SIB/disp8/disp32, mov/movzx/add/sub/imul/lea/inc/dec/cmp/test/sar/push/pop/call/jcc; flags ZF and CF only) -- a specification; conformance-checked on every run by executing each arithmetic instance as real machine code on the CPU (3 operand sets) and comparing with the bytecode semantics (a disagreement makes the obligation undecided)",
     "register map read off codegen.rs (rbx = context, rbp = tape pointer, rax/rcx scratch, temporaries 0..10 in r12-r15,rsi,rdi,rdx,r8-r11, >= 11 at [rsp+8t]) and Memory/Context field offsets 0/8/16/24",
     "bytecode step semantics (same as units u5/u9); temporaries are compared modulo 2^width",
     "instruction operands are ENUMERATED (register class x immediate class x offset class x live mask), not symbolic: a symbolic immediate makes the emitted length symbolic and Kani does not finish",
@@ -16,6 +16,8 @@ TRUSTED = [
 ]
 
 HERE = os.path.dirname(os.path.abspath(__file__))
+WANTS_PLAYBACK_VALUES = True   # the native replay is driven by the verifier's counterexample state
+CPU_RESULTS = {}   # instance -> "OK" | "MISMATCH ..." from the native CPU run of the last prepare()
 
 TMPS = [0, 1, 4, 6, 7, 11, 12]           # r12 (SIB base class), r13, rsi (byte-REX), rdx, r8, stack, stack
 MEMS = [0, 1, -1, 15, 16, -16, -17]      # disp 0 / disp8 / disp32 on both sides for 8-byte cells
@@ -193,14 +195,20 @@ fn dump<C: crate::CellType>(name: &str, instr: Instr<C>, live: u16, temps: usize
             let mut uops = decoder::decode(&cg.code);
             // resolve `mov rax, <address>; call rax` against the addresses of the three runtime shims
             let shims = [hpbf_context_extend::<C> as usize as u64, hpbf_context_input::<C> as usize as u64, hpbf_context_output::<C> as usize as u64];
-            let mut last_rax: Option<u64> = None;
-            for u in uops.iter_mut() {
-                match *u {
-                    Uop::MovImm64 { reg: 0, imm } => { last_rax = Some(imm); *u = Uop::MovImm64 { reg: 0, imm: 0 }; }
-                    Uop::RmI { op: 2, ea: Opnd::Reg(0), imm, sz } => { last_rax = Some(if sz == 4 { imm as u32 as u64 } else { imm as u64 }); }
+            let mut last_rax: Option<(u64, usize)> = None;
+            for k in 0..uops.len() {
+                match uops[k] {
+                    Uop::MovImm64 { reg: 0, imm } => { last_rax = Some((imm, k)); }
+                    Uop::RmI { op: 2, ea: Opnd::Reg(0), imm, sz } => { last_rax = Some((if sz == 4 { imm as u32 as u64 } else { imm as u64 }, usize::MAX)); }
                     Uop::CallShim { .. } => {
-                        let which = match last_rax { Some(a) => shims.iter().position(|&x| x == a).map(|p| p as u8).unwrap_or(255), None => 255 };
-                        *u = Uop::CallShim { which };
+                        let which = match last_rax { Some((a, _)) => shims.iter().position(|&x| x == a).map(|p| p as u8).unwrap_or(255), None => 255 };
+                        // the address itself is irrelevant to the model (and differs from run to run): normalise it
+                        if let Some((_, at)) = last_rax {
+                            if at != usize::MAX && which != 255 {
+                                uops[at] = Uop::MovImm64 { reg: 0, imm: 0 };
+                            }
+                        }
+                        uops[k] = Uop::CallShim { which };
                     }
                     _ => {}
                 }
@@ -213,6 +221,17 @@ fn dump<C: crate::CellType>(name: &str, instr: Instr<C>, live: u16, temps: usize
 #[test]
 fn verif_u6_dump() {
 %s
+}
+
+// ---- CPU conformance of the trusted x86 specification: the same instances, executed as REAL machine
+// ---- code by the real JIT on three operand sets each, compared with the bytecode semantics
+use crate::runtime::Context;
+use crate::CellType;
+use crate::exec::{BaseJitCompiler, Executable};
+VERIF_U6_REPLAY_FNS
+#[test]
+fn verif_u6_cpu() {
+VERIF_U6_REPLAY_CALLS
 }
 """
 
@@ -230,13 +249,22 @@ def prepare(repo, tier, seed):
         for n, w, ins, live, temps, lim, safe, mn, mx, call in cases)
     dump_path = os.path.join(repo, "src/exec/basejit/verif_u6_dump.rs")
     model = open(os.path.join(HERE, "u6_model.rs.in")).read()
-    open(dump_path, "w").write((DUMP_TMPL % body).replace("VERIF_U6_MODEL", model))
+    fns = REPLAY_TMPL.split("use crate::CellType;\n", 1)[1].split("#[test]")[0].replace("VERIF_CEX_TMPS", "").replace("VERIF_CEX_MEMS", "")
+    calls = "\n".join('    replay::<%s>("%s", %s, 0x%x);' % (w, n, ins, live)
+                      for n, w, ins, live, temps, lim, safe, mn, mx, call in cases if "check_arith" in call)
+    open(dump_path, "w").write((DUMP_TMPL % body).replace("VERIF_U6_MODEL", model)
+                               .replace("VERIF_U6_REPLAY_FNS", fns).replace("VERIF_U6_REPLAY_CALLS", calls))
     with open(os.path.join(repo, "src/exec/basejit/codegen.rs"), "a") as fh:
         fh.write('\n#[cfg(all(test, hpbf_verif_dump))]\n#[path = "%s"]\nmod verif_u6_dump;\n' % dump_path)
     env = dict(os.environ, CARGO_NET_OFFLINE="true", RUSTFLAGS="--cfg hpbf_verif_dump",
                CARGO_TARGET_DIR=os.path.join(repo, "target_native"))
-    p = subprocess.run(["cargo", "test", "--offline", "--lib", "verif_u6_dump", "--", "--nocapture", "--test-threads", "1"],
+    p = subprocess.run(["cargo", "test", "--offline", "--lib", "verif_u6_", "--", "--nocapture", "--test-threads", "1"],
                        cwd=repo, env=env, capture_output=True, text=True, timeout=1500)
+    global CPU_RESULTS
+    CPU_RESULTS = {}
+    for mm in re.finditer(r"U6REPLAY (\S+) (OK|MISMATCH.*)", p.stdout):
+        if CPU_RESULTS.get(mm.group(1), "OK") == "OK":
+            CPU_RESULTS[mm.group(1)] = mm.group(2)
     got = dict(re.findall(r"U6BYTES (\S+) (\S+)", p.stdout))
     uops = dict(re.findall(r"U6UOPS (\S+) (.*)", p.stdout))
     import shutil
@@ -329,6 +357,11 @@ fn val<C: CellType>(seed: u64, k: u64) -> C {
     C::from_u64((seed.wrapping_mul(0x9E3779B97F4A7C15).wrapping_add(k.wrapping_mul(0xD1B54A32D192ED03))) | 1)
 }
 
+/// operand values of the verifier's counterexample (temporary index -> value, cell index -> value);
+/// empty: three built-in operand sets are used
+static CEX_TMPS: &[(usize, u64)] = &[VERIF_CEX_TMPS];
+static CEX_MEMS: &[(isize, u64)] = &[VERIF_CEX_MEMS];
+
 fn replay<C: CellType>(name: &str, instr: Instr<C>, live: u16) {
     let (dst, srcs): (Loc<C>, Vec<Loc<C>>) = match instr {
         Instr::Copy(d, a) => (d, vec![a]),
@@ -348,8 +381,14 @@ fn replay<C: CellType>(name: &str, instr: Instr<C>, live: u16) {
                 }
             }
         }
-        let tval = |t: usize| val::<C>(seed, 100 + t as u64);
-        let mval = |i: isize| val::<C>(seed, 1000 + (i + 40) as u64);
+        let tval = |t: usize| match CEX_TMPS.iter().find(|x| x.0 == t) {
+            Some(x) if seed == 1 => C::from_u64(x.1),
+            _ => val::<C>(seed, 100 + t as u64),
+        };
+        let mval = |i: isize| match CEX_MEMS.iter().find(|x| x.0 == i) {
+            Some(x) if seed == 1 => C::from_u64(x.1),
+            _ => val::<C>(seed, 1000 + (i + 40) as u64),
+        };
         for &t in &tmps {
             cxt.memory.write(-20 + t as isize - 40, tval(t));
             insts.push(Instr::Copy(Loc::Tmp(t), Loc::Mem(-20 + t as isize - 40)));
@@ -404,6 +443,21 @@ fn verif_u6_replay() {
 """
 
 
+def post_process(harness_results):
+    """CPU conformance of the trusted x86 specification: an instance the specification accepts
+    (Kani discharged) but whose REAL machine code computes a wrong value on the CPU means the
+    specification is wrong -- undecided, not a verdict about hpbf."""
+    for h in harness_results:
+        short = h["name"].split("::")[-1]
+        cpu = CPU_RESULTS.get(short)
+        if cpu is not None:
+            h["cpu_run"] = cpu[:160]
+            if h["status"] == "discharged" and cpu != "OK":
+                h["status"] = "undecided"
+                h["reason"] = "x86 specification disagrees with the CPU: model accepts, real machine code gives " + cpu[:200]
+    return harness_results
+
+
 def native_replay(ob, tier, seed):
     """Replay a failing arithmetic instance on the REAL JIT (real emitter, prologue/epilogue, mmap,
     native execution of the generated machine code)."""
@@ -418,9 +472,29 @@ def native_replay(ob, tier, seed):
     if not cases:
         return None
     n, w, ins, live, temps, lim, safe, mn, mx, call = cases[0]
+    # operand values of the verifier's counterexample: new_machine() draws r[16], stk[26], havoc[9],
+    # mem[41], ctx[4], zf, cf in this order; Kani's playback lists one byte vector per draw
+    cex_t, cex_m = "", ""
+    pv = ob.get("playback_values") or []
+    if len(pv) >= 4 and len(pv[0]["bytes"]) == 128 and len(pv[1]["bytes"]) == 8 * 26 and len(pv[3]["bytes"]) == 8 * 41:
+        def q(bs, k):
+            return int.from_bytes(bytes(bs[8 * k:8 * k + 8]), "little")
+        regs, stk, mem = pv[0]["bytes"], pv[1]["bytes"], pv[3]["bytes"]
+        tmp_reg = [12, 13, 14, 15, 6, 7, 2, 8, 9, 10, 11]
+        bits = int(w[1:])
+        nbytes = bits // 8
+        ts = sorted({int(x) for x in re.findall(r"Loc::Tmp\((\d+)\)", ins)})
+        ms = sorted({int(x) for x in re.findall(r"Loc::Mem\((-?\d+)\)", ins)})
+        cex_t = ", ".join("(%d, %d)" % (t, q(regs, tmp_reg[t]) if t < 11 else q(stk, 10 + t)) for t in ts)
+        def cell(i):
+            lo = i * nbytes + 20 * 8
+            word = q(mem, lo // 8)
+            return (word >> ((lo % 8) * 8)) & ((1 << bits) - 1)
+        cex_m = ", ".join("(%d, %d)" % (i, cell(i)) for i in ms)
     with Scratch("u6replay") as sc:
         path = os.path.join(sc.repo, "src/exec/basejit/verif_u6_replay.rs")
-        open(path, "w").write(REPLAY_TMPL % ('    replay::<%s>("%s", %s, 0x%x);' % (w, n, ins, live)))
+        open(path, "w").write((REPLAY_TMPL % ('    replay::<%s>("%s", %s, 0x%x);' % (w, n, ins, live)))
+                              .replace("VERIF_CEX_TMPS", cex_t).replace("VERIF_CEX_MEMS", cex_m))
         with open(os.path.join(sc.repo, "src/exec/basejit/mod.rs"), "a") as fh:
             fh.write('\n#[cfg(all(test, hpbf_verif_replay))]\n#[path = "%s"]\nmod verif_u6_replay;\n' % path)
         env = dict(os.environ, CARGO_NET_OFFLINE="true", RUSTFLAGS="--cfg hpbf_verif_replay",
@@ -430,6 +504,7 @@ def native_replay(ob, tier, seed):
         lines = re.findall(r"U6REPLAY .*", p.stdout)
         reproduced = any("MISMATCH" in l for l in lines) or "signal" in (p.stdout + p.stderr)
         passed = any(l.endswith(" OK") for l in lines)
-        return {"cmd": "RUSTFLAGS=--cfg hpbf_verif_replay cargo test --lib verif_u6_replay (real BaseJitCompiler, native machine code)",
+        return {"cmd": "RUSTFLAGS=--cfg hpbf_verif_replay cargo test --lib verif_u6_replay (real BaseJitCompiler, native machine code; operand values of the verifier's counterexample: tmps [%s] cells [%s]; plus two built-in operand sets)" % (cex_t, cex_m),
+                "counterexample_operands_used": bool(cex_t or cex_m),
                 "reproduced_on_real_code": reproduced, "passed_on_real_code": passed and not reproduced,
                 "exit": p.returncode, "output_tail": "\n".join(lines)[-1200:] or (p.stdout + p.stderr)[-800:]}
